@@ -93,7 +93,7 @@ def bounds(tier):
                                                                               else "1 listed motion"),
         "noise": "one coordinate of one atom displaced by +-m1, +-m2 (palette by seed), before the motion",
         "masks": "all subsets with >= 1 atom of every set with n >= 2 (listed sets: all 2^n-1)"
-                 + ("; 5-point lattice sets with magnitude m2 only" if tier == "thorough"
+                 + ("; 5-point lattice sets with magnitude m2 and 3 of the motions only" if tier == "thorough"
                     else "; 4-point and listed sets with magnitude m2 only"),
         "containers": "9 x 9 (fixed, mobile) over ndarray f64/f32, AtomArray, ndarray stack depth 1/2/3, "
                       "AtomArrayStack depth 1/2/3, x mask {none, full, partial} x {exact, noisy} geometry over all "
@@ -105,7 +105,7 @@ def bounds(tier):
         "outlier_params": "min_anchors {1,3,n} x max_iterations {1,2,10} x (quantiles,threshold) "
                           "{((.25,.75),1.5), ((.9,.1),.5), ((.4,.6),0)} on the listed sets (displacements +-m1, +-m2, "
                           "+-3; " + ("6" if tier == "thorough" else "2") + " motions; also mobile stacks of depth 2); "
-                          + ("all 3- and 4-point lattice sets x all displacements x the 27 triples" if tier == "thorough"
+                          + ("all 3- and 4-point lattice sets x all displacements x 11 of the triples" if tier == "thorough"
                              else "all 4-point lattice sets x displacements +-m2 x 5 listed triples"),
         "homolog_sequences": ("peptides {ALA,GLY,SER}^2..4 both sides" if tier == "thorough" else
                               "peptides {ALA,GLY,SER}^2..3 both sides + {ALA,SER}^4 both sides")
@@ -553,10 +553,13 @@ QT = [((0.25, 0.75), 1.5), ((0.9, 0.1), 0.5), ((0.4, 0.6), 0.0)]
 QUICK_PARAMS = [(1, 10, 0), (3, 10, 0), (3, 2, 0), (3, 1, 0), (3, 10, 1)]
 
 
-def outlier_params(n, full):
-    if not full:
+def outlier_params(n, level):
+    """level 0: 5 listed triples; 1: 11 triples (all (min_anchors, quantile) at 10 iterations + the default
+    quantiles at 1 and 2 iterations); 2: all 27."""
+    if level == 0:
         return list(QUICK_PARAMS)
-    return [(ma, mi, qi) for ma in sorted({1, 3, n}) for mi in (1, 2, 10) for qi in range(len(QT))]
+    return [(ma, mi, qi) for ma in sorted({1, 3, n}) for mi in (1, 2, 10) for qi in range(len(QT))
+            if level == 2 or mi == 10 or (qi == 0 and ma == 3)]
 
 
 def run_outlier_batch(ctx, desc, focus=None):
@@ -573,8 +576,8 @@ def run_outlier_batch(ctx, desc, focus=None):
     rows = []  # (item index list, params, result)
     calls = []
     if desc.get("stack"):
-        # mobile stack of depth 2: consecutive item pairs
-        groups = [(k, k + 1) for k in range(0, len(items) - 1, 2)]
+        # mobile stack of depth 2: item k together with item k+5 (another displacement / motion)
+        groups = [(k, (k + 5) % len(items)) for k in range(len(items))]
     else:
         groups = [(k,) for k in range(len(items))]
     for grp in groups:
@@ -613,7 +616,8 @@ def run_outlier_batch(ctx, desc, focus=None):
             ctx.violation("superimpose_without_outliers|outliers_removed_with_max_iterations_1|" + cls0,
                           "max_iterations=1 is documented to conduct no outlier removal", ccase,
                           expected=list(range(n)), observed=anchors)
-        if CHECK_DOCUMENTED_OUTLIER_LOOP:
+        if CHECK_DOCUMENTED_OUTLIER_LOOP and len(grp) == 1:
+            # (how several models are combined into one outlier decision is not documented: arrays only)
             ref, amb = sp.outlier_reference(F, mobile, ma, mi, q, thr)
             if amb:
                 ctx.count("unspecified")
@@ -782,7 +786,7 @@ def run_homolog_case(ctx, case):
     import biotite.structure as struc
 
     fch, mch, ma = case["f"], case["m"], case["ma"]
-    fixed = build_chains(fch, case.get("hetero", False))
+    fixed = build_chains(fch, case.get("hetero", False), pos=case.get("fpos"))
     base = build_chains(mch, pos=case.get("mpos"))
     geos = case["geo"] if isinstance(case["geo"], list) else [case["geo"]]
     mobs = [move(base, g) for g in geos]
@@ -866,7 +870,7 @@ def run_homolog_case(ctx, case):
     if case.get("mpos") is not None:
         # mobile is an exact rigid copy of a sub-structure of fixed (residue at POS[k] <-> residue at POS[k]); the
         # sequences have one unambiguous alignment, so the common residues must end up superimposed
-        fpos = [k for k in range(sum(map(len, fch)))]
+        fpos = [k for ch in case["fpos"] for k in ch]
         mposl = [k for ch in case["mpos"] for k in ch]
         fa_l, mb_l = sorted(fa), sorted(mb)
         pairs = [(fa_l[fpos.index(k)], mb_l[j]) for j, k in enumerate(mposl) if k in fpos]
@@ -920,7 +924,11 @@ def homolog_cases(shard, tier):
                     ms.append(ch[sl])
                     mp.append(ps[sl])
                 for mi in (None, 1):
-                    out.append({"kind": "homolog", "f": fch, "m": ms, "mpos": mp, "geo": 0, "ma": 3, "mi": mi})
+                    out.append({"kind": "homolog", "f": fch, "m": ms, "fpos": full, "mpos": mp, "geo": 0, "ma": 3,
+                                "mi": mi})
+                    if (v1, v2) != (0, 0):
+                        out.append({"kind": "homolog", "f": ms, "m": fch, "fpos": mp, "mpos": full, "geo": 0, "ma": 3,
+                                    "mi": mi})
     elif fam == "cross":
         for ms in [list(s) for k in (2, 3) for s in itertools.product(NUC, repeat=k)]:
             out.append({"kind": "homolog", "f": fch, "m": [ms], "geo": 1, "ma": 2, "mi": None})
@@ -1032,8 +1040,9 @@ def fit_descs(shard, tier, seed):
                        "mask": None}
         elif space == "mask":
             mg = mags if (th and size != 5) or (size in (2, 3)) else [mags[1]]
+            mo = M6[:3] if size == 5 else M6
             for mask in all_masks(n):
-                yield {**base, "mode": "stack", "rots": [], "motions": [list(x) for x in M6], "mags": mg,
+                yield {**base, "mode": "stack", "rots": [], "motions": [list(x) for x in mo], "mags": mg,
                        "mask": mask}
 
 
@@ -1065,14 +1074,14 @@ def outlier_descs(shard, tier, seed):
         n = len(F)
         th = tier == "thorough"
         motions = [list(x) for x in (M6 if th else M6[1:3])] if big else [[8, 2]]
-        prm = [list(p) for p in outlier_params(n, big or th)]
+        prm = [list(p) for p in outlier_params(n, 2 if big else (1 if th else 0))]
         mg = list(mags) + [3.0] if big else (list(mags) if th else [mags[1]])
         # a second, small displacement on the last atom keeps the remainder generic after the outlier is gone
         yield {"kind": "outlier", "fixed": F, "trans": trans, "mags": mg, "base_noise": [n - 1, 1, 0.375],
                "rots": [], "motions": motions, "params": prm, "stack": False}
         if big:
             yield {"kind": "outlier", "fixed": F, "trans": trans, "mags": list(mags), "rots": [],
-                   "motions": motions[:2], "params": prm, "stack": True}
+                   "motions": motions[:2] if th else motions[:1], "params": prm, "stack": True}
 
 
 def run_shard(shard, ctx):
